@@ -3,7 +3,7 @@
    Token-level model of the plain codec: coq/model/Plain.v (number formatting is the identity on values:
    trusted, and monitored by the harness on every float it sees). *)
 From Coq Require Import String.
-From NeatModel Require Import Res F64 Genome Plain PlainSpec PlainPopSpec.
+From NeatModel Require Import Res F64 Genome Plain Tree PlainSpec PlainPopSpec CodecSpec.
 Open Scope string_scope.
 Open Scope list_scope.
 
@@ -131,6 +131,69 @@ Theorem C15_read_population_stray_line_panics : forall reg tag t rest more,
 Proof. exact read_population_stray_line_panics. Qed.
 Print Assumptions C15_read_population_stray_line_panics.
 
+(* ---------- YAML encoding (modules included), at the level of the value tree ---------- *)
+
+(* what the YAML writer accepts and the YAML reader's checks admit: at most eight trait parameters (the
+   reader has eight slots: fewer are padded with zeros, more make it index out of range); no repeated
+   non-zero trait id, no repeated node id; named neuron types and registered activation types; module
+   links that name nodes of the genome by non-zero ids; control node ids that are not node ids *)
+Definition C15_yaml_writable (reg : registry) (g : genome) : Prop :=
+  Forall (fun t => (length (t_params t) <= 8)%nat) (traits g) /\
+  NoDup (filter (fun z => negb (Z.eqb z 0)) (map t_id (traits g))) /\
+  NoDup (map n_id (nodes g)) /\
+  Forall (fun n => (n_type n = HIDDEN \/ n_type n = INPUT \/ n_type n = OUTPUT \/ n_type n = BIAS) /\
+                   exists s, reg_name reg (n_act n) = Some s) (nodes g) /\
+  Forall (fun m => (exists s, reg_name reg (n_act (m_node m)) = Some s) /\
+                   Forall (fun p => fst p <> 0 /\ In (fst p) (map n_id (nodes g))) (m_ins m) /\
+                   Forall (fun p => fst p <> 0 /\ In (fst p) (map n_id (nodes g))) (m_outs m) /\
+                   ~ In (n_id (m_node m)) (map n_id (nodes g))) (modules g).
+
+(* for EVERY behaviour [il] of the YAML library on integer-looking floats: the reader, applied to what the
+   library makes of the writer's tree, returns the format's normal form of the genome, modules included *)
+Theorem C15_yaml_roundtrip : forall il reg g,
+  C15_registry reg -> C15_yaml_writable reg g ->
+  exists t, y_genome reg g = Ok t /\ y_read reg (yaml_lib il t) = Ok (ynorm_genome il g).
+Proof.
+  intros il reg g Hr (A & B & C & D & E). exact (yaml_roundtrip il reg Hr g (Build_yaml_ok reg g A B C D E)).
+Qed.
+Print Assumptions C15_yaml_roundtrip.
+
+(* and the library's effect on a weight is at most the sign of zero: whenever the integer reading of a float
+   equals it numerically (as for strconv's shortest formatting, instance il_g), the restored float is
+   the same float or numerically equal to it *)
+Theorem C15_yaml_floats_numerically_exact : forall il f,
+  (forall z, il f = Some z -> PrimFloat.eqb (f_of_Z z) f = true) ->
+  lib_float il f = f \/ PrimFloat.eqb (lib_float il f) f = true.
+Proof. exact lib_float_num. Qed.
+Print Assumptions C15_yaml_floats_numerically_exact.
+
+Theorem C15_yaml_il_g_numeric : forall f z, il_g f = Some z -> PrimFloat.eqb (f_of_Z z) f = true.
+Proof. exact il_g_num. Qed.
+Print Assumptions C15_yaml_il_g_numeric.
+
+(* ---------- gob encoding of an experiment, at the level of the value sequence ---------- *)
+
+(* under the guard "every generation has a champion" (whose genome the plain writer accepts): the same
+   id, name, trials, generations (all twelve fields) and champions (five fields and the genome) *)
+Theorem C15_experiment_roundtrip : forall reg e,
+  C15_registry reg ->
+  Forall (fun t => Forall (fun g => exists c, gn_champion g = Some c /\ C15_writable reg (c_genome c)) (tr_gens t)) (ex_trials e) ->
+  exists s e', enc_experiment reg e = Ok s /\ norm_experiment e = Some e' /\ dec_experiment reg s = Ok (e', []).
+Proof.
+  intros reg e Hr H. apply (experiment_roundtrip reg Hr e).
+  eapply Forall_impl; [|exact H]. intros t Ht. eapply Forall_impl; [|exact Ht].
+  intros g (c & Hc & Hw). exists c. split; [exact Hc|exact (C15_writable_ok reg _ Hw)].
+Qed.
+Print Assumptions C15_experiment_roundtrip.
+
+(* the guard's complement (recorded finding gob-generation-nil-champion): one generation without champion
+   anywhere, and what Encode writes is rejected by Decode *)
+Theorem C15_experiment_nil_champion_fails : forall reg e s,
+  (exists t, In t (ex_trials e) /\ exists g, In g (tr_gens t) /\ gn_champion g = None) ->
+  enc_experiment reg e = Ok s -> exists c, dec_experiment reg s = GoErr c.
+Proof. exact experiment_nil_champion_fails. Qed.
+Print Assumptions C15_experiment_nil_champion_fails.
+
 (* ---------- non-vacuity ---------- *)
 
 Definition ex_reg : registry := [(4, "SigmoidSteepenedActivation"); (17, "NullActivation"); (14, "LinearActivation")].
@@ -183,3 +246,39 @@ Example C15_example_first_trait_kept :
   | _ => []
   end = [1; 2].
 Proof. vm_compute. reflexivity. Qed.
+
+(* a modular genome through the YAML writer, the library (strconv instance) and the reader: the weight 1.5
+   is kept, -0 comes back as +0, the control node and its links are restored *)
+Definition ex_modular : genome :=
+  {| gid := gid ex_genome; traits := traits ex_genome; nodes := nodes ex_genome; genes := genes ex_genome;
+     modules := [{| m_node := {| n_id := 9; n_type := HIDDEN; n_act := 14; n_trait := Some 1 |}; m_innov := 6;
+                    m_mut := 0x1p-1; m_en := true; m_ins := [(1, 1%float); (4, 1%float)]; m_outs := [(3, 1%float)] |}] |}.
+
+Example C15_example_yaml :
+  match y_genome ex_reg ex_modular with
+  | Ok t => match y_read ex_reg (yaml_lib il_g t) with
+            | Ok r => (map rg_w (rg_genes (y_core r)), y_modules r)
+            | _ => ([], [])
+            end
+  | _ => ([], [])
+  end = ([0x1.8p+0; 0; (-0x1.0f0cf064dd592p+73)]%float, modules ex_modular).
+Proof. vm_compute. reflexivity. Qed.
+
+Definition ex_generation (ch : option champion) : generation (option champion) :=
+  {| gn_id := 0; gn_executed := 1600000000000000000; gn_solved := true; gn_fitness := [0x1.8p+0]%float; gn_age := [2]%float;
+     gn_complexity := [7]%float; gn_diversity := 1; gn_evals := 120; gn_nodes := 4; gn_genes := 3; gn_duration := 5000;
+     gn_trial := 0; gn_champion := ch |}.
+Definition ex_champion : champion :=
+  {| c_fit := 0x1.8p+0; c_winner := true; c_gen := 3; c_offspring := 0; c_error := 0x1p-7; c_genome := ex_genome |}.
+
+Example C15_example_experiment :
+  match enc_experiment ex_reg {| ex_id := 1; ex_name := "XOR"; ex_trials := [{| tr_id := 0; tr_gens := [ex_generation (Some ex_champion)] |}] |} with
+  | Ok s => match dec_experiment ex_reg s with Ok (e', []) => map (fun t => length (tr_gens t)) (ex_trials e') | _ => [] end
+  | _ => []
+  end = [1%nat]
+  /\
+  match enc_experiment ex_reg {| ex_id := 1; ex_name := "XOR"; ex_trials := [{| tr_id := 0; tr_gens := [ex_generation None; ex_generation (Some ex_champion)] |}] |} with
+  | Ok s => dec_experiment ex_reg s
+  | _ => GoErr 0
+  end = GoErr 202.
+Proof. split; vm_compute; reflexivity. Qed.
